@@ -277,6 +277,9 @@ func helpersOf(f *ssa.Function) []*ssa.Function {
 						continue
 					}
 					sc := ci.Common().StaticCallee()
+					if sc == nil {
+						sc = closureVarCallee(ci.Common()) // `freeSlot := func(…){…}` called through its variable
+					}
 					// (a function literal called in place is a static callee too and belongs to the region)
 					if sc == nil || seen[sc] || len(sc.Blocks) == 0 || !isTransparent(sc, pkg) {
 						continue
@@ -517,6 +520,8 @@ func transparentCallee(caller *ssa.Function, in ssa.Instruction) *ssa.Function {
 		g = sc
 	} else if mc, ok := c.Call.Value.(*ssa.MakeClosure); ok {
 		g, _ = mc.Fn.(*ssa.Function)
+	} else {
+		g = closureVarCallee(&c.Call)
 	}
 	if g == nil || len(g.Blocks) == 0 {
 		return nil
@@ -1270,6 +1275,56 @@ func withinFunction(f *ssa.Function, body func()) {
 }
 
 // bindingOf: the value bound to a closure's free variable where the closure is created.
+// closureVarCallee: the function literal behind a call through a local variable that is assigned exactly once
+// (`helper := func(…) {…}` … `helper(x)`, also from inside another closure that captured the variable).
+func closureVarCallee(cc *ssa.CallCommon) *ssa.Function {
+	if cc.IsInvoke() {
+		return nil
+	}
+	ld, ok := cc.Value.(*ssa.UnOp)
+	if !ok || ld.Op != token.MUL {
+		return nil
+	}
+	var cell *ssa.Alloc
+	switch x := ld.X.(type) {
+	case *ssa.Alloc:
+		cell = x
+	case *ssa.FreeVar:
+		for v := ssa.Value(x); v != nil; {
+			fv, isFV := v.(*ssa.FreeVar)
+			if !isFV {
+				cell, _ = v.(*ssa.Alloc)
+				break
+			}
+			v = bindingOf(fv)
+		}
+	}
+	if cell == nil || cell.Referrers() == nil {
+		return nil
+	}
+	var fn *ssa.Function
+	stores := 0
+	for _, ref := range *cell.Referrers() {
+		st, ok := ref.(*ssa.Store)
+		if !ok || st.Addr != ssa.Value(cell) {
+			continue
+		}
+		stores++
+		switch v := st.Val.(type) {
+		case *ssa.MakeClosure:
+			fn, _ = v.Fn.(*ssa.Function)
+		case *ssa.Function:
+			fn = v
+		default:
+			return nil
+		}
+	}
+	if stores != 1 {
+		return nil
+	}
+	return fn
+}
+
 func bindingOf(fv *ssa.FreeVar) ssa.Value {
 	fn := fv.Parent()
 	if fn == nil || fn.Parent() == nil {
